@@ -70,6 +70,13 @@ SetHeight(h) ==
     /\ height' = h
     /\ UNCHANGED <<blocks, stream, foreign, tokans>>
 
+\* the node's view lags: it reports a height BELOW what it reported before (and possibly below blocks whose events it has
+\* already served); the event stream and the height come from independent requests
+ReportHeight(h) ==
+    /\ h >= 0
+    /\ height' = h
+    /\ UNCHANGED <<blocks, stream, foreign, tokans>>
+
 SetTok(id, shape) ==
     /\ tokans' = Put(tokans, id, shape)
     /\ UNCHANGED <<blocks, height, stream, foreign>>
